@@ -14,7 +14,7 @@
     default_cfg_include_attrs i18n_directives_sort_first contexted_table
     lookups_subset_extract_partial choose_identity msg_lookup_extracted identity_transparent_msg
     choose_lookup_extracted choose_outer_text_not_looked_up msg_lookup_extracted_elem
-    code_calls_extracted excluded_attr_code_not_extracted
+    code_calls_extracted
 -/
 import Genshi.Lemmas.I18nTree
 import Genshi.Lemmas.I18nStarts
@@ -190,37 +190,32 @@ example : noMsgList
     comment, excluded elements; message directives plain): extraction never raises and reports
     every gettext call `extract_from_code` finds (expressions are opaque and carry that result)
       * in every EXPR and EXEC event, at any depth, also inside excluded elements,
-      * in the interpolated attribute values of every START event outside excluded elements
-        (inside: finding C19-excluded-attr-code, `excluded_attr_code_not_extracted`),
+      * in the interpolated attribute values of every START event — also of excluded elements
+        and inside them (repaired: fix 3756726),
       * in the expressions and interpolated attributes of the content of a message directive
         (repaired: fix 2e1fee9 — the directive `extract` methods skipped EXPR events),
     as `(function, strings)` with an empty comment list (`codeList` collects exactly these). -/
 theorem code_calls_extracted (cfg : Cfg) (s : TStream) (h : okMsgList s = true) :
-    ∃ ms, extract cfg s = .ok ms ∧ ∀ c ∈ codeList cfg 0 s, codeMessage c ∈ ms :=
+    ∃ ms, extract cfg s = .ok ms ∧ ∀ c ∈ codeList cfg s, codeMessage c ∈ ms :=
   Genshi.I18n.code_calls_extracted cfg s h
 
-/-- `<p i18n:msg="n">Hi ${_('W')}<b title="${_('T')}">x</b></p><script>${_('S')}</script>`:
-    the three calls are in `codeList` (and the stream is one the theorem speaks about) -/
+/-- `<p i18n:msg="n">Hi ${_('W')}<b title="${_('T')}">x</b></p><script type="${_('A')}">${_('S')}</script>`:
+    the four calls are in `codeList` (and the stream is one the theorem speaks about) -/
 example :
     okMsgList
       [.sub [.msg [['n']]] [.start ⟨[], ['p']⟩ [], .text ['H','i',' '], .expr 0 [⟨['_'], .one (some ['W'])⟩],
           .start ⟨[], ['b']⟩ [(⟨[], ['t','i','t','l','e']⟩, .parts [.expr [⟨['_'], .one (some ['T'])⟩]])],
           .text ['x'], .end_ ⟨[], ['b']⟩, .end_ ⟨[], ['p']⟩],
-       .start ⟨[], ['s','c','r','i','p','t']⟩ [], .expr 1 [⟨['_'], .one (some ['S'])⟩], .end_ ⟨[], ['s','c','r','i','p','t']⟩] = true ∧
-    codeList Cfg.default 0
+       .start ⟨[], ['s','c','r','i','p','t']⟩ [(⟨[], ['t','y','p','e']⟩, .parts [.expr [⟨['_'], .one (some ['A'])⟩]])],
+       .expr 1 [⟨['_'], .one (some ['S'])⟩], .end_ ⟨[], ['s','c','r','i','p','t']⟩] = true ∧
+    codeList Cfg.default
       [.sub [.msg [['n']]] [.start ⟨[], ['p']⟩ [], .text ['H','i',' '], .expr 0 [⟨['_'], .one (some ['W'])⟩],
           .start ⟨[], ['b']⟩ [(⟨[], ['t','i','t','l','e']⟩, .parts [.expr [⟨['_'], .one (some ['T'])⟩]])],
           .text ['x'], .end_ ⟨[], ['b']⟩, .end_ ⟨[], ['p']⟩],
-       .start ⟨[], ['s','c','r','i','p','t']⟩ [], .expr 1 [⟨['_'], .one (some ['S'])⟩], .end_ ⟨[], ['s','c','r','i','p','t']⟩] =
-      [⟨['_'], .one (some ['W'])⟩, ⟨['_'], .one (some ['T'])⟩, ⟨['_'], .one (some ['S'])⟩] := by
+       .start ⟨[], ['s','c','r','i','p','t']⟩ [(⟨[], ['t','y','p','e']⟩, .parts [.expr [⟨['_'], .one (some ['A'])⟩]])],
+       .expr 1 [⟨['_'], .one (some ['S'])⟩], .end_ ⟨[], ['s','c','r','i','p','t']⟩] =
+      [⟨['_'], .one (some ['W'])⟩, ⟨['_'], .one (some ['T'])⟩, ⟨['_'], .one (some ['A'])⟩, ⟨['_'], .one (some ['S'])⟩] := by
   refine ⟨by decide +kernel, by decide +kernel⟩
-
-/-- C19-excluded-attr-code: `<script type="${_('Hello')}">1</script>` — the call in the
-    attribute of the excluded element is not extracted (so `codeList` must leave it out). -/
-theorem excluded_attr_code_not_extracted :
-    extract Cfg.default
-      [.start ⟨[], ['s','c','r','i','p','t']⟩ [(⟨[], ['t','y','p','e']⟩, .parts [.expr [⟨['_'], .one (some ['H','e','l','l','o'])⟩]])],
-       .text ['1'], .end_ ⟨[], ['s','c','r','i','p','t']⟩] = .ok [] := by decide +kernel
 
 /-- **lookups_subset_extract, message directives.**  For `<t i18n:msg="ps">content</t>` whose
     content holds no nested directive — any events otherwise, any catalogue, context and skip
